@@ -27,6 +27,7 @@ type Gen struct {
 	dupCreate bool
 	canonical bool // canonical child order (FAR id first etc.)
 	slotGen   map[[2]int]int
+	fdPool    []*FlowDescIntent
 	stopAt    int
 	between   int
 	mass      int // >0: many sessions with 8 periodic URRs of one period (batch limit)
@@ -297,6 +298,21 @@ func (g *Gen) ports() [][2]uint16 {
 }
 
 func (g *Gen) flowDesc() *FlowDescIntent {
+	// the same flow description is often used by several rules (uplink and downlink,
+	// several sessions): re-use earlier ones
+	if len(g.fdPool) > 0 && g.chance(0.45) {
+		c := *g.fdPool[g.intn(len(g.fdPool))]
+		return &c
+	}
+	f := g.newFlowDesc()
+	if len(g.fdPool) < 6 {
+		g.fdPool = append(g.fdPool, f)
+	}
+	c := *f
+	return &c
+}
+
+func (g *Gen) newFlowDesc() *FlowDescIntent {
 	f := &FlowDescIntent{Out: g.chance(0.5), Proto: g.intn(256), Src: g.net4(), Dst: g.net4(), Spaces: g.intn(3)}
 	if g.chance(0.3) {
 		f.Proto = -1
@@ -1036,6 +1052,10 @@ func (g *Gen) kbuf() (Action, bool) {
 	}
 	pdrs := sortedRefs(x.Req, "pdr")
 	k := &KBufIntent{SMF: m.Idx, Slot: sl, Action: uint16(pick(g.rng, 4, 12, 12, 4)), Len: 8 + g.intn(pick(g.rng, 8, 64, 1400)), Count: 1}
+	if g.chance(0.3) {
+		// boundary lengths: 4-byte alignment, around common MTUs, beyond them
+		k.Len = pick(g.rng, 8, 9, 10, 11, 12, 13, 1391, 1392, 1393, 1400, 1401, 1472, 1480, 1484, 1485, 1488, 1489, 1492, 1499, 1500, 1501, 1512, 2048, 8972, 9000, 65000) + g.intn(2)
+	}
 	if len(pdrs) > 0 && g.chance(0.9) {
 		k.PDR = uint16(pdrs[g.intn(len(pdrs))])
 	} else {
